@@ -185,7 +185,9 @@ struct Scn
   void emit(Obj& e, const std::string& oc)
   {
     bool ok = oc == "ok";
-    e.kv("r", ok ? "ok" : "raise");
+    // only a library exception is a refusal; anything else is a fault no action explains
+    bool fault = oc.compare(0, 10, "raise:std:") == 0 || oc == "raise:other";
+    e.kv("r", ok ? "ok" : fault ? "fault" : "raise");
     if (!ok) e.kv("x", oc.substr(oc.find(':') + 1));
     e.kv("s", state());
     tracer().emit(e);
